@@ -19,6 +19,7 @@ func runC08(c *Ctx) {
 	c08R1(c)
 	c08R2345(c)
 	c08Writer(c)
+	c08Store(c)
 }
 
 func c08R1(c *Ctx) {
@@ -32,8 +33,8 @@ func c08R1(c *Ctx) {
 	if !c.complete(ex, rule, role, fn) {
 		return
 	}
-	okGate, okClient, okErr, okSucc := true, true, true, true
-	var wGate, wClient, wErr, wSucc *Path
+	okGate, okClient, okErr, okSucc, okAll := true, true, true, true, true
+	var wGate, wClient, wErr, wSucc, wAll *Path
 	n := 0
 	for _, p := range ex.Paths {
 		auth := p.First(".AuthenticateClient")
@@ -56,6 +57,20 @@ func c08R1(c *Ctx) {
 			if auth == nil || !p.IsNil(auth.Ret(1)) {
 				okSucc, wSucc = false, p
 			}
+			// every configured handler was consulted: the success exit is reached through the
+			// exhaustion test of the handler loop, not by leaving it early (a handler that does
+			// not know the token answers nil, so "first nil wins" would skip the one that does)
+			if evs := p.Calls(".RevokeToken"); len(evs) > 0 {
+				last := evs[len(evs)-1]
+				hs := last.Recv
+				if hs != nil && hs.Op == "idx" && len(hs.Args) == 2 {
+					if !p.LoopExhausted(nil, hs.Args[0]) {
+						okAll, wAll = false, p
+					}
+				} else {
+					okAll, wAll = false, p
+				}
+			}
 		}
 	}
 	if n == 0 {
@@ -66,6 +81,7 @@ func c08R1(c *Ctx) {
 	c.Check(okClient, rule, role, fn, "authenticated-client-passed", "the handlers receive the client returned by AuthenticateClient", "RevokeToken receives another client value", wClient)
 	c.Check(okErr, rule, role, fn, "auth-error-returned", "an authentication failure is returned unchanged", "the authentication error is replaced or dropped", wErr)
 	c.Check(okSucc, rule, role, fn, "success-needs-auth", "success exits require successful client authentication", "a success exit is reachable without authentication", wSucc)
+	c.Check(okAll, rule, role, fn, "all-handlers-consulted", "a success exit is reached only after every configured revocation handler was invoked (the handler loop ran to exhaustion)", "success is reachable with the handler loop left early", wAll)
 }
 
 func c08R2345(c *Ctx) {
